@@ -6,6 +6,7 @@ wt = sys.argv[2]
 n = sys.argv[3] if len(sys.argv) > 3 else '2'
 wave2 = len(sys.argv) > 4 and sys.argv[4] == 'wave2'
 wave3 = len(sys.argv) > 4 and sys.argv[4] == 'wave3'
+wave4 = len(sys.argv) > 4 and sys.argv[4] == 'wave4'
 for l in open('/verif/properties.jsonl'):
     p = json.loads(l)
     if p['id'] == pid:
@@ -28,4 +29,6 @@ Deliver, under {wt}/_mutants/<k>/ for k = 1..{n}: `patch.diff` (output of `git -
 
 Diversity: make the changes differ from one another in MECHANISM and FILE (not three index slips in one function). Look beyond the most obvious function for this property: set-up time code (reader, Reactor/Core/Assembly construction, clone/copy logic, caches and memoised values, unit handling), rarely used but valid options and geometries, multi-assembly / multi-region / multi-time-point interactions, and state carried from one step or one call to the next.""" if wave2 else '') + ("""
 
-Make the three changes of three different KINDS: (1) a numeric / geometric / indexing slip inside the core computation this property is about, one that only shows for an unusual but valid geometry or regime (extreme ring count, very different wall or gap thicknesses, bare rods, a flow regime boundary, a cell type that rarely limits, the last/first cell or step, a region or power-cell boundary falling at an awkward place); (2) a state / ordering / caching / copy problem that needs two or more assemblies, regions, time points, calls or runs in a particular order to show; (3) a problem at the edges of the calculation: the input reader, unit conversion, defaults and rarely used options, or the way results are collected, stored and written out (csv / dassh.out tables) - anything through which a user relies on the property without looking at internal arrays. Prefer places that the other two changes do not touch.""" if wave3 else ''))
+Make the three changes of three different KINDS: (1) a numeric / geometric / indexing slip inside the core computation this property is about, one that only shows for an unusual but valid geometry or regime (extreme ring count, very different wall or gap thicknesses, bare rods, a flow regime boundary, a cell type that rarely limits, the last/first cell or step, a region or power-cell boundary falling at an awkward place); (2) a state / ordering / caching / copy problem that needs two or more assemblies, regions, time points, calls or runs in a particular order to show; (3) a problem at the edges of the calculation: the input reader, unit conversion, defaults and rarely used options, or the way results are collected, stored and written out (csv / dassh.out tables) - anything through which a user relies on the property without looking at internal arrays. Prefer places that the other two changes do not touch.""" if wave3 else '') + ("""
+
+Make the three changes of three different KINDS: (1) a comparison / threshold / boundary slip (`>` for `>=`, an off-by-one at a regime or region or cell boundary, a tolerance that is absolute where it must be relative, a sign or a factor of two) that shows only when a value lands exactly on, or within round-off of, a boundary or for one branch of a piecewise formula; (2) an interaction of TWO features that are each tested alone (e.g. double duct + low-fidelity region, spacer grid + gravity, unit system + orificing, several time points + tables, bypass gap + pin model, empty core positions + anything indexed by position): a change that is invisible unless both are used together; (3) a silent fallback: a branch for unusual input that quietly substitutes a default, skips a step, truncates, or catches an exception and carries on, so that the run finishes without any message but the property no longer holds - including what ends up in the written output files (the csv dumps temp_*.csv / pressure_drop.csv, the per-assembly tables requested with AssemblyTables, dassh.out). Prefer files and functions that look peripheral; avoid re-doing the most obvious slip in the most central function.""" if wave4 else ''))
